@@ -25,7 +25,7 @@ def FrameStream_CloseWrite : List String := ["writeMu.Lock", "writeMu.Unlock", "
 def FrameStream_Read : List String := ["readMu.Lock", "readMu.Unlock", "copy", "ReadFrame", "isConnectionClosedError", "conn.MarkBroken", "isConnectionClosedError", "copy"]
 def FrameStream_Write : List String := ["writeMu.Lock", "writeMu.Unlock", "WriteFrame", "conn.MarkBroken", "WriteFrame", "conn.MarkBroken"]
 def ReadFrame : List String := ["ReadFrameFromReader"]
-def ReadFrameFromReader : List String := ["io.ReadFull", "binary.BigEndian.Uint32", "coreerrors.Newf", "make", "io.ReadFull"]
+def ReadFrameFromReader : List String := ["make", "io.ReadFull", "binary.BigEndian.Uint32", "coreerrors.Newf", "make", "io.ReadFull"]
 def WriteFrame : List String := ["coreerrors.Newf", "make", "copy", "binary.BigEndian.PutUint32", "bufs.WriteTo"]
 end Skel
 
@@ -35,8 +35,8 @@ def ReadFrameFromReader : List String := [
   "err = coreerrors.New(coreerrors.CodeNetworkError, \"reader is nil\")",
   "return",
   "end",
-  "var header [FrameHeaderSize]byte",
-  "if _, err = io.ReadFull(r, header[:]); err != nil",
+  "header := make([]byte, FrameHeaderSize)",
+  "if _, err = io.ReadFull(r, header); err != nil",
   "if err == io.EOF",
   "return",
   "end",
@@ -46,7 +46,7 @@ def ReadFrameFromReader : List String := [
   "copy(tunnelID[:], header[0:16])",
   "frameType = header[16]",
   "length := binary.BigEndian.Uint32(header[17:21])",
-  "if wireSize := FrameHeaderSize + length; wireSize > MaxFrameWireSize",
+  "if length > MaxFrameSize",
   "err = coreerrors.Newf(coreerrors.CodeInvalidPacket, \"frame too large: %d > %d\", length, MaxFrameSize)",
   "return",
   "end",
@@ -174,8 +174,14 @@ def FrameStream_Read : List String := [
   "continue",
   "end",
   "switch frameType",
-  "case FrameTypeData",
-  "if len(data) == 0",
+  "case FrameTypeEOF",
+  "s.readEOF = true",
+  "return 0, io.EOF",
+  "case FrameTypeClose",
+  "s.readEOF = true",
+  "return 0, io.EOF",
+  "end",
+  "if IsControlFrame(frameType) || len(data) == 0",
   "continue",
   "end",
   "s.readBuf = data",
@@ -187,15 +193,6 @@ def FrameStream_Read : List String := [
   "s.readOff = 0",
   "end",
   "return n, nil",
-  "case FrameTypeEOF",
-  "s.readEOF = true",
-  "return 0, io.EOF",
-  "case FrameTypeClose",
-  "s.readEOF = true",
-  "return 0, io.EOF",
-  "default",
-  "continue",
-  "end",
   "end"
 ]
 def FrameStream_Write : List String := [
